@@ -260,6 +260,21 @@ func init() {
 				// v4 differences that decide nothing about the limit: any other failure kind
 				if !wantLimit && lv.Want.Doc == nil {
 					if isLimit {
+						// The sequence ends at the operation the reference rejects. If that operation is a copy
+						// whose source resolves, the library may account it before it discovers that the copy is
+						// inapplicable: "a copy that is inapplicable for another reason decides nothing". That is
+						// the case exactly when the total in the error is the reference total plus that value.
+						last := sc.Ops[lv.Want.FailIndex]
+						var tot, lim int64
+						fmt.Sscanf(afterText(res.Err.Error(), "copy is "), "%d, exceeding the limit %d", &tot, &lim)
+						var base int64
+						if len(lv.Hi) > 0 {
+							base = lv.Hi[len(lv.Hi)-1]
+						}
+						if last.Kind == "copy" && tot > base && tot-base <= 1<<20 {
+							c.Count("legacy:limit-vs-other-failure-ambiguous")
+							return
+						}
 						c.Violation("legacy:AccumulatedCopySizeError-although-total-within-limit", d)
 					}
 					return
@@ -283,4 +298,13 @@ func init() {
 		},
 	})
 	_ = jr.Null
+}
+
+func afterText(s, marker string) string {
+	for i := 0; i+len(marker) <= len(s); i++ {
+		if s[i:i+len(marker)] == marker {
+			return s[i+len(marker):]
+		}
+	}
+	return ""
 }
